@@ -19,6 +19,7 @@ CONSTANTS Ufrags,      \* ufrags connections are requested for
           Kinds,       \* datagram kinds: "data" (not STUN), or a ufrag / "ux" (STUN whose USERNAME starts with that ufrag)
           Writers,     \* writer process names
           MaxConns, MaxGrams, MaxWrites, MaxRemoves,
+          MaxReads,    \* concurrent model: reads by a connection's user while the others are under way (0: the users read only at the end)
           StaleWrites, \* may a write start on a connection that is no longer listed (stale handle)?
           MuxClose,    \* is Close of the mux explored?
           MaxCloses,   \* Close calls on connections
@@ -44,7 +45,7 @@ S0 == [made |-> 0, listed |-> [f \in Fams |-> [u \in Ufrags |-> 0]],
               wpc |-> [w \in Writers |-> "idle"], wc |-> [w \in Writers |-> 0], wx |-> [w \in Writers |-> "-"],
               dpc |-> "idle", dg |-> NoGram, dt |-> 0,
               rpc |-> "idle", ru |-> "-", rcs |-> {},
-              sent |-> 0, writes |-> 0, removes |-> 0, closes |-> 0,
+              sent |-> 0, writes |-> 0, removes |-> 0, closes |-> 0, reads |-> 0,
               gone |-> {}]                           \* history: connections whose removal (or close) has completed
 Init == st = S0
 Listed(S, c) == \E f \in Fams, u \in Ufrags : S.listed[f][u] = c
@@ -86,6 +87,11 @@ dEnq(S) == [S EXCEPT !.dpc = "put"]
 dPut(S) == [S EXCEPT !.dpc = "idle",
                      !.q[S.dt] = IF S.closed[S.dt] THEN @ ELSE Append(@, [n |-> S.dg.n, src |-> S.dg.src])]
 dStep(S) == CASE S.dpc = "lookup" -> dLookup(S) [] S.dpc = "ufrag" -> dUfrag(S) [] S.dpc = "enq" -> dEnq(S) [] S.dpc = "put" -> dPut(S) [] OTHER -> S
+\* ---------------------------------------------------------------- ReadFrom by the user of connection c: the oldest queued
+\* datagram leaves the queue whether the caller's buffer holds it or not (too short: an error, the datagram is gone, the
+\* holder goes back to the pool as clean as after any other read)
+CanURead(S, c) == c <= S.made /\ ~S.hclosed[c] /\ S.q[c] # <<>> /\ S.reads < MaxReads
+uRead(S, c) == [S EXCEPT !.q[c] = Tail(@), !.reads = @ + 1]
 \* ---------------------------------------------------------------- RemoveConnByUfrag(u)
 CanRStart(S, u) == S.rpc = "idle" /\ S.removes < MaxRemoves
 rStart(S, u) == [S EXCEPT !.rpc = "unlist", !.ru = u, !.removes = @ + 1]
@@ -129,6 +135,7 @@ DLookup == st.dpc = "lookup" /\ st' = dLookup(st)
 DUfrag == st.dpc = "ufrag" /\ st' = dUfrag(st)
 DEnq == st.dpc = "enq" /\ st' = dEnq(st)
 DPut == st.dpc = "put" /\ st' = dPut(st)
+URead(c, short) == CanURead(st, c) /\ st' = uRead(st, c)
 RStart(u) == CanRStart(st, u) /\ st' = rStart(st, u)
 RUnlist == st.rpc = "unlist" /\ st' = rUnlist(st)
 RUnmap == st.rpc = "unmap" /\ st' = rUnmap(st)
@@ -137,6 +144,7 @@ CloseMux == MuxClose /\ ~st.muxClosed /\ st' = closeMux(st)
 Next == \/ \E u \in Ufrags, f \in Fams : GetConn(u, f)
         \/ \E w \in Writers : (\E c \in Conns, x \in Srcs : WStart(w, c, x)) \/ WCheck(w) \/ WContains(w) \/ WAppend(w) \/ WRegister(w)
         \/ (\E x \in Srcs, kd \in Kinds : DRead(x, kd)) \/ DLookup \/ DUfrag \/ DEnq \/ DPut
+        \/ (\E c \in Conns, sh \in {"full", "short"} : URead(c, sh))
         \/ (\E u \in Ufrags : RStart(u)) \/ RUnlist \/ RUnmap
         \/ (\E c \in Conns : CloseConn(c)) \/ CloseMux
 Spec == Init /\ [][Next]_st
